@@ -28,6 +28,7 @@ fn main() {
 		"server_message_classification" => probes::server_message_classification(),
 		"client_send_failure_reports_cause" => probes::client_send_failure_reports_cause(),
 		"params_sequence_agrees_with_parse" => probes::params_sequence_agrees_with_parse(),
+		"host_filter_gate" => probes::host_filter_gate(),
 		_ => json!({"probe": name, "error": "unknown probe"}),
 	};
 	println!("{}", res);
